@@ -285,4 +285,122 @@ theorem solo_push_any {fx : Bool} (s : St) (t : Nat) (d : Bool) (n : Nat) (ht : 
     exact ⟨p3, kk.trans k3, by rw [c3, c2, c1], by rw [pu3, pu2, pu1], by rw [po3, po2, po1]⟩)
   exact r2.mono (by omega) (fun _ h => h)
 
+/-! ## Whole operations, from `idle` to `idle` -/
+
+theorem Glob.map_pop {A : Anchor} {C : List Nat} {N : Nat → Node} {U : Nat → Bool}
+    (g : Glob A C N U) (d : Bool) (h0 : A.endp d ≠ 0) (f : Nat → Nat) :
+    C.map f = if d then (chainPop d C).map f ++ [f (A.endp d)]
+              else f (A.endp d) :: (chainPop d C).map f := by
+  have hm := g.end_mem d h0
+  have hne : C ≠ [] := by intro hc; rw [hc] at hm; simp at hm
+  cases d
+  · have h1 := g.head_eq hne
+    cases C with
+    | nil => exact absurd rfl hne
+    | cons x l => simp at h1; simp [chainPop, Anchor.endp, h1]
+  · have h2 := dropLast_split C A.r (g.last_eq hne)
+    simp only [chainPop, Anchor.endp, if_true]
+    conv => lhs; rw [h2]
+    simp
+
+theorem contents_congr {s s' : St} (hd : ∀ x, (s'.nodes x).data = (s.nodes x).data) (C : List Nat) :
+    C.map (fun n => (s'.nodes n).data) = C.map (fun n => (s.nodes n).data) :=
+  List.map_congr_left (fun x _ => hd x)
+
+/-- A whole pop by `t` alone on a non-empty deque. -/
+theorem solo_pop_op_nonempty {fx : Bool} (s : St) (t : Nat) (d : Bool) (x : Nat) (ht : t < s.n)
+    (hg : Glob s.anchor s.chain s.nodes s.used) (hidle : s.pc t = .idle) (hne : s.chain ≠ []) :
+    ∃ (mid : List Ev) (v : Nat) (s' : St), mid.length ≤ 12 ∧ (∀ e ∈ mid, Ev.tid e = t) ∧
+      runLog (stepG fx) s (.inv t false d x :: mid ++ [.ret t true v]) = some s' ∧
+      s'.pc t = .idle ∧ s'.n = s.n ∧ (∀ u, u ≠ t → s'.pc u = s.pc u) ∧
+      contents s = (if d then contents s' ++ [v] else v :: contents s') ∧
+      s'.popped = v :: s.popped ∧ s'.pushed = s.pushed := by
+  have h0 : s.anchor.endp d ≠ 0 := fun h => hne (hg.nil_of_end d h)
+  obtain ⟨mid, hl, htid, s1, hr, p1, k1, c1, pu1, po1⟩ :=
+    solo_pop_nonempty (fx := fx) { s with pc := upd s.pc t (.popLd d) } t d ht hg (by simp) h0
+  refine ⟨mid, (s.nodes (s.anchor.endp d)).data, { s1 with pc := upd s1.pc t .idle }, hl, htid, ?_,
+    by simp, k1.n, ?_, ?_, po1, pu1⟩
+  · have ht1 : t < s1.n := by rw [k1.n]; exact ht
+    have hr' : runLog (stepG fx) { s with pc := upd s.pc t (.popLd d) } mid = some s1 := hr
+    simp [runLog, stepG, ht, hidle, runLog_append, hr']
+    simp at p1
+    simp [ht1, p1]
+  · intro u hu
+    have := k1.others u hu
+    simp [upd, hu] at this ⊢
+    exact this
+  · have hd : ∀ y, (s1.nodes y).data = (s.nodes y).data := k1.data
+    have := hg.map_pop d h0 (fun n => (s.nodes n).data)
+    simp only [contents]
+    rw [this]
+    have hc : s1.chain = chainPop d s.chain := c1
+    simp only [hc, contents_congr hd]
+
+/-- A whole pop by `t` alone on an empty deque: three events, the answer is "empty". -/
+theorem solo_pop_op_empty {fx : Bool} (s : St) (t : Nat) (d : Bool) (x : Nat) (ht : t < s.n)
+    (hg : Glob s.anchor s.chain s.nodes s.used) (hidle : s.pc t = .idle) (he : s.chain = []) :
+    ∃ s' : St, runLog (stepG fx) s [.inv t false d x, .ld t s.anchor, .ret t false 0] = some s' ∧
+      s'.pc t = .idle ∧ s'.n = s.n ∧ (∀ u, u ≠ t → s'.pc u = s.pc u) ∧
+      contents s' = [] ∧ s'.popped = s.popped ∧ s'.pushed = s.pushed := by
+  have h0 : s.anchor.endp d = 0 := by
+    have h1 := hg.hd; have h2 := hg.lst
+    rw [he] at h1 h2
+    cases d <;> simp [Anchor.endp] <;> simpa using ‹_›
+  simp [runLog, stepG, ht, hidle, h0, contents, he]
+  intro u hu
+  simp [upd, hu]
+
+/-- A whole push by `t` alone. -/
+theorem solo_push_op {fx : Bool} (s : St) (t : Nat) (d : Bool) (v : Nat) (ht : t < s.n)
+    (hg : Glob s.anchor s.chain s.nodes s.used) (hf : FinUsed s) (hidle : s.pc t = .idle) :
+    ∃ (mid : List Ev) (s' : St), mid.length ≤ 17 ∧ (∀ e ∈ mid, Ev.tid e = t) ∧
+      runLog (stepG fx) s (.inv t true d v :: mid ++ [.ret t true 0]) = some s' ∧
+      s'.pc t = .idle ∧ s'.n = s.n ∧ (∀ u, u ≠ t → s'.pc u = s.pc u) ∧
+      contents s' = (if d then contents s ++ [v] else v :: contents s) ∧
+      s'.pushed = v :: s.pushed ∧ s'.popped = s.popped := by
+  obtain ⟨nd, hnd0, hndu⟩ := hf.fresh
+  have hnc : nd ∉ s.chain := fun hm => by
+    have := (hg.mem nd hm).2; rw [hndu] at this; exact Bool.noConfusion this
+  let N0 : Nat → Node := upd s.nodes nd ⟨⟨0, newTag fx (s.nodes nd).left⟩, ⟨0, newTag fx (s.nodes nd).right⟩, v⟩
+  let s0 : St := { s with nodes := N0, used := upd s.used nd true,
+                          pc := upd (upd s.pc t (.pushAlloc d v)) t (.pushLd d nd) }
+  have hN0 : ∀ y, y ∈ s.chain → N0 y = s.nodes y := fun y hy => by
+    have : y ≠ nd := fun h => hnc (h ▸ hy)
+    simp [N0, this]
+  have hg0 : Glob s0.anchor s0.chain s0.nodes s0.used :=
+    hg.frame hN0 (fun y hy => by
+      have : y ≠ nd := fun h => hnc (h ▸ hy)
+      simp [s0, upd, this, (hg.mem y hy).2])
+  obtain ⟨mid, hl, htid, s1, hr, p1, k1, c1, pu1, po1⟩ :=
+    solo_push_any (fx := fx) s0 t d nd ht hg0 (by simp [s0])
+  refine ⟨.alloc t nd :: mid, { s1 with pc := upd s1.pc t .idle }, by simp; omega, ?_, ?_,
+    by simp, k1.n, ?_, ?_, ?_, po1⟩
+  · intro e he
+    rcases List.mem_cons.1 he with h | h
+    · rw [h]; rfl
+    · exact htid e h
+  · have ht1 : t < s1.n := by rw [k1.n]; exact ht
+    have hr' : runLog (stepG fx) s0 mid = some s1 := hr
+    simp [runLog, stepG, ht, hidle, hnd0, hndu]
+    have : ({ s with nodes := upd s.nodes nd ⟨⟨0, newTag fx (s.nodes nd).left⟩, ⟨0, newTag fx (s.nodes nd).right⟩, v⟩,
+                     used := upd s.used nd true,
+                     pc := upd (upd s.pc t (.pushAlloc d v)) t (.pushLd d nd) } : St) = s0 := rfl
+    rw [this, runLog_append, hr']
+    simp [runLog, stepG, ht1, p1]
+  · intro u hu
+    have := k1.others u hu
+    simp [s0, upd, hu] at this ⊢
+    exact this
+  · have hd : ∀ y, (s1.nodes y).data = (N0 y).data := k1.data
+    have hc : s1.chain = chainPush d s.chain nd := c1
+    have hnd : (N0 nd).data = v := by simp [N0]
+    have hmap : s.chain.map (fun n => (s1.nodes n).data) = s.chain.map (fun n => (s.nodes n).data) :=
+      List.map_congr_left (fun y hy => by rw [hd y, hN0 y hy])
+    simp only [contents, hc]
+    cases d
+    · simp [chainPush, hd nd, hnd, hmap]
+    · simp [chainPush, hd nd, hnd, hmap]
+  · have : s1.pushed = (N0 nd).data :: s.pushed := pu1
+    simp [this, N0]
+
 end PikaVerif.Deque
